@@ -80,7 +80,7 @@ func Run04(k *report.Check) {
 }
 
 func Run11(k *report.Check) {
-	k.Rule = rule("C11 oracle, source-runner part: the k-th watermark carries the same value in every operator stream, values do not decrease, and each equals the largest timestamp among the keyed events that precede it in the union of the streams minus one nanosecond (before any event: the zero time minus one nanosecond). The operator part (minimum over upstreams) is the second group of parts. non-trivial = distinct (configuration, watermark value sequences)")
+	k.Rule = rule("C11 oracle, source-runner part: the k-th watermark carries the same value in every operator stream, values do not decrease, and each equals the largest timestamp among the keyed events that precede it in the union of the streams minus one nanosecond (before any event: the zero time minus one nanosecond); with a batch time-out every operator has been told the watermark of the largest forwarded timestamp by the end of the run (two watermark periods; judged on the schedules without deviations, where virtual time cannot run ahead of the reader). The operator part (minimum over upstreams) is the second group of parts. non-trivial = distinct (configuration, watermark value sequences)")
 	k.Assumptions = []string{"as C04"}
 	k.Budget(140, 1500)
 	operatorPart(k) // cheap parts first: a loaded machine must not starve them
@@ -402,6 +402,37 @@ func checkWatermarks(c *mc.Ctx, cfg *srh.Config, obs *srh.Obs) {
 	}
 	if maxK > 0 {
 		c.Note("executions_with_watermarks")
+	}
+	// "follows that timestamp closely so event time advances": the runs last two watermark periods
+	// and every record is forwarded well within the first one, so each operator must have been
+	// told the final watermark - the largest forwarded timestamp minus one nanosecond - by the
+	// end (with a batch time-out; without one a trailing partial batch stays queued by design).
+	// Only on schedules without deviations: an early expiry of a timer (a deviation) lets virtual
+	// time run ahead of the reader, and then the premise does not hold.
+	if cfg.Batching.MaxDelay > 0 && c.Used() == 0 {
+		var top time.Time
+		any := false
+		for oi := range obs.Streams {
+			if streamHas[oi] && (!any || streamMax[oi].After(top)) {
+				top, any = streamMax[oi], true
+			}
+		}
+		if any {
+			want := top.Add(-time.Nanosecond)
+			for oi, ws := range per {
+				reached := false
+				for _, w := range ws {
+					reached = reached || w.val.Equal(want)
+				}
+				if !reached {
+					last := "none"
+					if len(ws) > 0 {
+						last = wmStr(ws[len(ws)-1].val)
+					}
+					c.FailSig("watermark-does-not-follow", "operator %d was never told the watermark %s that follows the largest forwarded timestamp %s, although two watermark periods passed after the last record (its last watermark: %s)", oi, wmStr(want), wmStr(top), last)
+				}
+			}
+		}
 	}
 	_ = sort.Strings
 }
